@@ -186,6 +186,10 @@ class ISD(model.Document):
 
   def _region_always_has_background(region: typing.Type[model.Region]) -> bool:
 
+    if any(True for _ in region.iter_animation_steps()):
+      # specified values can be overridden by animation: assume the background can be visible
+      return True
+
     if region.get_style(styles.StyleProperties.Opacity) == 0:
       return False
 
